@@ -14,6 +14,12 @@ pub static BIG_LINE_PCT: AtomicU32 = AtomicU32::new(0);
 /// chance (percent) that a tree gets a file of 120-220 lines; patches on such a file mostly replace a block
 /// of 66-130 lines by as many others (hunks larger than any fixed search window)
 pub static BIG_FILE_PCT: AtomicU32 = AtomicU32::new(3);
+/// chance (percent) that a file picked to be very large (1 in 20 of the large ones) really gets ~1200 lines
+pub static HUGE_PCT: AtomicU32 = AtomicU32::new(0);
+/// how many of 20 large files get 340-400 lines (blocks of 260-330 lines) instead of 120-220
+pub static LARGE_OF_20: AtomicU32 = AtomicU32::new(1);
+/// directories of the initial tree of the workspace being generated (set by the workspace generator)
+pub static INITIAL_DIRS: std::sync::Mutex<Vec<String>> = std::sync::Mutex::new(Vec::new());
 
 #[derive(Clone, Debug, PartialEq)]
 pub struct GenFile {
@@ -55,15 +61,20 @@ pub fn rand_content(rng: &mut Rng, max: usize, rich: bool) -> Vec<Vec<u8>> {
 }
 
 pub fn big_content(rng: &mut Rng) -> Vec<Vec<u8>> {
-    let n = 120 + rng.below(100);
+    // mostly 120-220 lines; sometimes long enough for a block of several hundred / a thousand lines
+    // (the model's writer is cubic in the size of a hunk without common lines: a 1100-line block costs it
+    // 40 s, so those are left to the thorough tier: HUGE_PCT)
+    let n = match rng.below(20) { 0 if rng.chance(HUGE_PCT.load(Ordering::Relaxed)) => 1150 + rng.below(100), x if x >= 1 && (x as u32) <= LARGE_OF_20.load(Ordering::Relaxed) => 340 + rng.below(60), _ => 120 + rng.below(100) };
     (0..n).map(|i| format!("line {}\n", if rng.chance(10) { i % 7 } else { i }).into_bytes()).collect()
 }
 
 /// replace one block of 66-130 lines by 66-130 other lines (no line in common), keep the rest
 pub fn big_script(rng: &mut Rng, old: &[Vec<u8>]) -> Vec<Op> {
-    let del = (66 + rng.below(65)).min(old.len());
+    // the block is as large as the file allows: 66-130 lines, or 260-330, or about 1100
+    let want = if old.len() >= 1150 { 1050 + rng.below(80) } else if old.len() >= 340 { 260 + rng.below(70) } else { 66 + rng.below(65) };
+    let del = want.min(old.len());
     let start = rng.below(old.len() - del + 1);
-    let ins = 66 + rng.below(65);
+    let ins = want - rng.below(20).min(want - 1);
     let mut ops: Vec<Op> = old[..start].iter().map(|l| Op::Keep(l.clone())).collect();
     ops.extend(old[start..start + del].iter().map(|l| Op::Del(l.clone())));
     ops.extend((0..ins).map(|i| Op::Ins(format!("new text {}\n", i).into_bytes())));
@@ -272,6 +283,22 @@ pub fn gen_patch(rng: &mut Rng, tree: &mut Tree, allow_fail: bool, rich: bool) -
         let existing: Vec<String> = tree.keys().filter(|k| !touched.contains(k) || rng.chance(30)).cloned().collect();
         let kind = rng.below(100);
         let fail_here = allow_fail && rng.chance(18);
+        // a failing file patch for a file that does not exist, in a directory the series has emptied by now
+        // (its last file deleted or renamed away by an earlier patch): no reject file may appear there
+        if allow_fail && rng.chance(30) {
+            let emptied: Vec<&str> = ["d", "d/e"].iter().cloned().filter(|d| INITIAL_DIRS.lock().unwrap().iter().any(|x| x == d)
+                && !tree.keys().any(|k| k.starts_with(&format!("{}/", d)))).collect();
+            if let Some(d) = emptied.first() {
+                let name = format!("{}/{}", d, rng.pick(&["x", "n2", "h"]));
+                text.extend_from_slice(&render_header(&HeaderSpec { old: Some(&name), new: Some(&name), dialect, p, rename: false,
+                    old_mode: None, new_mode: None, creating: false, deleting: false, has_hunks: true }));
+                text.extend_from_slice(b"@@ -1,2 +1,2 @@\n a\n-b\n+c\n");
+                ok = false;
+                continue;
+            }
+        }
+        // a hunk that changes nothing (context lines only) in front of a real change of the same file
+        let noop_hunk = rng.chance(3);
         if kind < 55 && !existing.is_empty() {
             // modify
             let name = existing[rng.below(existing.len())].clone();
@@ -303,6 +330,17 @@ pub fn gen_patch(rng: &mut Rng, tree: &mut Tree, allow_fail: bool, rich: bool) -
             let (old_sp, new_sp) = if old_name == new_name { let s = respell(rng, &old_name); (s.clone(), s) } else { (respell(rng, &old_name), respell(rng, &new_name)) };
             text.extend_from_slice(&render_header(&HeaderSpec { old: Some(&old_sp), new: Some(&new_sp), dialect, p, rename: false,
                 old_mode: new_mode.map(|_| f.mode), new_mode, creating: false, deleting: false, has_hunks: true }));
+            if noop_hunk && !f.lines.is_empty() && f.lines.iter().all(|l| l.last() == Some(&b'\n')) {
+                // `@@ -1,n +1,n @@` with the first n lines of the file as context, nothing else
+                let n = 1 + rng.below(f.lines.len().min(3));
+                if let Some(Op::Keep(_)) = ops.first() {
+                    let first_change = ops.iter().position(|o| !matches!(o, Op::Keep(_))).unwrap_or(0);
+                    if first_change > n + 2 * c + 1 {
+                        text.extend_from_slice(format!("@@ -1,{} +1,{} @@\n", n, n).as_bytes());
+                        for l in &f.lines[..n] { text.push(b' '); text.extend_from_slice(l); }
+                    }
+                }
+            }
             text.extend_from_slice(&hs);
             if corrupt.is_some() { ok = false; }
             else { tree.insert(name.clone(), GenFile { lines: new_of(&ops), mode: new_mode.unwrap_or(f.mode) }); }
